@@ -195,16 +195,18 @@ def regex_lemmas(rep: C.Report) -> None:
 
 def gen_merge(quick: bool) -> str:
     out = []
-    n = 3 if quick else 4
-    # skeleton: which children are nodes (N) and which strings (S); string contents symbolic (<= 2 chars)
-    for sk in itertools.product("SN", repeat=n):
+    # skeleton: which children are nodes (N) and which strings (S); string contents symbolic.
+    # quick: 3 children x <=1 char; thorough: 3 children x <=2 chars and 4 children x <=1 char
+    skels = [(sk, 1) for sk in itertools.product("SN", repeat=3)] if quick else [(sk, 2) for sk in itertools.product("SN", repeat=3)] + [(sk, 1) for sk in itertools.product("SN", repeat=4)]
+    for sk, slen in skels:
         if "S" not in sk:
             continue
+        n = len(sk)
         ss = [f"s{i}" for i, k in enumerate(sk) if k == "S"]
         params = ", ".join(f"{x}: str" for x in ss)
-        pre = " and ".join(f"len({x}) <= {1 if quick else 2} and all(c in CH for c in {x})" for x in ss)
+        pre = " and ".join(f"len({x}) <= {slen} and all(c in CH for c in {x})" for x in ss)
         kids = "[" + ", ".join((f"s{i}" if k == "S" else "None") for i, k in enumerate(sk)) + "]"
-        tag = "".join(sk)
+        tag = "".join(sk) + f"_{slen}"
         out.append(f'''
 def merge_{tag}({params}) -> bool:
     """
